@@ -183,7 +183,15 @@ def handle (s : St) (op : String) (args : List Sexp) : Option (St × String) := 
   | "d.sub", [d, k] =>
       let d ← daOf d
       match k with
-      | .node (.atom "L" :: _) => pure1 ("ok " ++ daRender (DA.subKeys d (← strsOf k)))
+      | .node (.atom "L" :: xs) =>
+          if xs.all (fun x => match x with | .atom _ => true | _ => false) then pure1 ("ok " ++ daRender (DA.subKeys d (← strsOf k)))
+          else
+            -- a list holding tuple paths beside keys: member by member on one copy (`DA.subMixed`)
+            let ms ← xs.mapM fun x => match x with
+              | .atom _ => (strOf x).map Sum.inl
+              | .node (.atom "T" :: ps) => (ps.mapM strOf).map Sum.inr
+              | _ => Option.none
+            pure1 (resStr (DA.subMixed d ms) daRender)
       | .node (.atom "T" :: _) => pure1 (resStr (DA.subPath d (← strsOf k)) daRender)      -- a tuple is a PATH into nested mappings
       | _ => pure1 ("ok " ++ daRender (DA.subKey d (← strOf k)))
   | "d.and", [d, k] => pure1 ("ok " ++ daRender (DA.andKeys (← daOf d) (← strsOf k)))
